@@ -44,6 +44,44 @@ def check_fullfact(n, center, shift):
     return []
 
 
+PREC_CASES = [
+    # (bounds, precision) per parameter: declared precisions next to narrow ranges and ranges off the precision grid
+    [([0.0, 0.1], 0.1), ([1.0, 1.25], 0.1)], [([0.0, 0.1], 0.1)], [([0.0, 1.0], 1.0), ([-0.5, 0.5], 1.0)], [([0.35, 2.45], 0.7), ([0.0, 1.0], 1e-3)],
+    [([1.0, 3.0], 2.0), ([0.0, 10.0], 5.0), ([0.0, 1.0], 0.5)], [([-1e-3, 1e-3], 1e-2)], [([0.0, 0.3], 0.2)],
+]
+
+
+def check_fullfact_precision(k, center):
+    """Parameters that declare a precision: the design is still the full factorial over two (three) DISTINCT levels per
+    factor -- both bounds (and a centre strictly between them, within half the precision of the mid-point)."""
+    from artap.operators import FullFactorGenerator
+    case = PREC_CASES[k]
+    ps = [{"name": pname(i), "bounds": list(b), "precision": pr} for i, (b, pr) in enumerate(case)]
+    g = FullFactorGenerator(ps)
+    g.init(center)
+    desc = "FullFactorGenerator center=%r on %r" % (center, case)
+    try:
+        rows = g.generate()
+    except Exception as e:
+        return [("C13:fullfact:exception:%s" % type(e).__name__, "%s raised %r" % (desc, e))]
+    nl = 3 if center else 2
+    got = Counter(tuple(r) for r in rows)
+    out = []
+    if len(rows) != nl ** len(ps) or any(v != 1 for v in got.values()):
+        out.append(("C13:fullfact:precision:combination-repeated-or-missing", "%s: %d rows, %d distinct, expected %d distinct" % (desc, len(rows), len(got), nl ** len(ps))))
+        return out
+    for j, (b, pr) in enumerate(case):
+        levels = sorted(set(r[j] for r in rows))
+        mid = (b[0] + b[1]) / 2.0
+        ok = len(levels) == nl and levels[0] == b[0] and levels[-1] == b[1] and (not center or (b[0] < levels[1] < b[1] and abs(levels[1] - mid) <= pr / 2.0 + 1e-12))
+        if not ok:
+            out.append(("C13:fullfact:precision:levels", "%s: factor %d takes the levels %r, expected the bounds %r%s" % (desc, j, levels, b, " and a centre near %r" % mid if center else "")))
+            break
+    if not out and got != Counter(itertools.product(*[sorted(set(r[j] for r in rows)) for j in range(len(ps))])):
+        out.append(("C13:fullfact:precision:not-the-product", desc))
+    return out
+
+
 def check_fullfact_levels(shape):
     from artap.operators import FullFactorLevelsGenerator
     ps = params(len(shape))
@@ -279,6 +317,9 @@ def _shard(shard, col: Collector):
             for center in (False, True):
                 if not (center and n == 8):
                     rec("ff", {"n": n, "center": center, "shift": 1}, check_fullfact(n, center, 1), True)
+        for k in range(len(PREC_CASES)):
+            for center in (False, True):
+                rec("ffprec", {"k": k, "center": center}, check_fullfact_precision(k, center), True)
         for k in range(len(MIXED_LEVELS)):
             rec("fflmixed", {"k": k}, check_mixed_levels(k), True)
         col.sample({"kind": "full-factorial-levels", "shape": [2, 4, 3]}, 1)
@@ -330,6 +371,8 @@ def replay(sub, case):
         return check_pb(case["n"], case["shift"])
     if sub == "bb":
         return check_bb(case["n"], case["shift"])
+    if sub == "ffprec":
+        return check_fullfact_precision(case["k"], case["center"])
     if sub == "fflmixed":
         return check_mixed_levels(case["k"])
     if sub == "scribble":
